@@ -469,3 +469,41 @@ func recvAndArgs(call ssa.Instruction) (ssa.Value, []ssa.Value) {
 	}
 	return cc.Args[0], cc.Args[1:]
 }
+
+// bytesFrom: the byte slice v is built from a value satisfying pred: directly
+// (append, slicing, conversions), or v is a window of a local buffer that a
+// copy() fills from such a value in the same function.
+func bytesFrom(v ssa.Value, pred func(ssa.Value) bool) bool {
+	if pred(v) {
+		return true
+	}
+	var buf ssa.Value
+	ir.DerivesFrom(v, func(x ssa.Value) bool {
+		if a, ok := x.(*ssa.Alloc); ok {
+			if _, isArr := a.Type().Underlying().(*types.Pointer).Elem().Underlying().(*types.Array); isArr {
+				buf = a
+				return true
+			}
+		}
+		return false
+	})
+	if buf == nil {
+		return false
+	}
+	in, ok := v.(ssa.Instruction)
+	if !ok || in.Parent() == nil {
+		return false
+	}
+	found := false
+	ir.Instrs(in.Parent(), func(x ssa.Instruction) {
+		call, isCall := x.(*ssa.Call)
+		if !isCall || !isBuiltin("copy")(call) {
+			return
+		}
+		dst, src := call.Call.Args[0], call.Call.Args[1]
+		if ir.DerivesFrom(dst, func(y ssa.Value) bool { return y == buf }) && pred(src) {
+			found = true
+		}
+	})
+	return found
+}
